@@ -223,7 +223,7 @@ func mapString(m map[string]string) string {
 func crashOpts(dir string, j *vlib.Job) Options {
 	o := smallOpts(dir)
 	o.MemTableSize = 16 << 10
-	o.NumLevelZeroTables = 2
+	o.NumLevelZeroTables = 1 // one L0 table already makes L0 eligible: compactions happen in short histories
 	o.NumLevelZeroTablesStall = 9
 	o.NumMemtables = 4
 	o.ValueThreshold = 64
@@ -804,6 +804,9 @@ func crashWorker(name string, imagesOf func(cr *crashRun) []crashImage) scenario
 					}
 				}
 				r.AddExtra("persistence_events", int64(len(cr.events)))
+				for _, ev := range cr.events {
+					r.AddExtra("ev_"+ev.Op+filepath.Ext(ev.Path), 1)
+				}
 				r.Transitions += int64(len(cr.snaps))
 				return "", ""
 			})
@@ -836,4 +839,150 @@ func init() {
 		return out
 	}))
 	register("crash10", crashWorker("crash10", func(cr *crashRun) []crashImage { return cr.c10Images() }))
+}
+
+// ---------------------------------------------------------------------------------------
+// crash08c: concurrent committers x crash points.  Two (three) committer threads are explored
+// under the scheduler; a snapshot is taken at every scheduling step of every schedule and
+// recovered: the visible commits must be a prefix of the commit-timestamp order that contains
+// every commit acknowledged before the snapshot.
+
+type cc08State struct {
+	cr      *crashRun
+	names   []string
+	writes  []map[string]string
+	acked   []bool
+	snapAck [][]bool
+}
+
+func init() {
+	registerSched(&schedScenario{
+		name:   "crash08c",
+		points: []string{"op", "commit.ts", "send.enqueue", "write.vlog", "write.lsm", "commit.applied"},
+		setup: func(x *schedExec) {
+			o := crashOpts(x.dir, x.j)
+			x.db = mustOpen(o)
+			st := &cc08State{cr: &crashRun{dir: x.dir, blobs: map[string][]byte{}, opts: o}}
+			st.names = []string{"T1", "T2", "T3"}[:x.j.Int("threads", 2)]
+			st.writes = []map[string]string{{"a": "T1", "b": "T1"}, {"b": "T2", "c": string(val("T2-", 150))}, {"a": "T3", "c": "T3"}}
+			st.acked = make([]bool, len(st.names))
+			x.state = st
+		},
+		threads: func(x *schedExec) []sched.Thread {
+			st := x.state.(*cc08State)
+			var ths []sched.Thread
+			for i, n := range st.names {
+				i := i
+				ths = append(ths, sched.Thread{Name: n, Body: func() {
+					x.s.Point("op")
+					txn := x.db.NewTransaction(true)
+					ks := make([]string, 0, 2)
+					for k := range st.writes[i] {
+						ks = append(ks, k)
+					}
+					sort.Strings(ks)
+					for _, k := range ks {
+						if err := txn.Set([]byte(k), []byte(st.writes[i][k])); err != nil {
+							panic(err)
+						}
+					}
+					x.s.Point("op")
+					if err := txn.Commit(); err != nil {
+						panic(err)
+					}
+					st.acked[i] = true
+				}})
+			}
+			return ths
+		},
+		afterStep: func(x *schedExec) string {
+			st := x.state.(*cc08State)
+			st.cr.snapshot()
+			st.snapAck = append(st.snapAck, append([]bool{}, st.acked...))
+			return ""
+		},
+		check: func(x *schedExec) (string, string, string) {
+			st := x.state.(*cc08State)
+			d := dumpAll(x.db)
+			// commit ts of each txn from the live dump
+			ts := make([]uint64, len(st.names))
+			for i := range st.names {
+				for k, v := range st.writes[i] {
+					for _, e := range d[k] {
+						if e.Val == v {
+							ts[i] = e.Ver
+						}
+					}
+				}
+				if ts[i] == 0 {
+					return "", fmt.Sprintf("%s acknowledged but not stored", st.names[i]), "lost-commit"
+				}
+			}
+			order := make([]int, len(ts))
+			for i := range order {
+				order[i] = i
+			}
+			sort.Slice(order, func(a, b int) bool { return ts[order[a]] < ts[order[b]] })
+			// expected states for each prefix of the commit order
+			var prefixes []map[string]string
+			cur := map[string]string{}
+			prefixes = append(prefixes, map[string]string{})
+			for _, i := range order {
+				for k, v := range st.writes[i] {
+					cur[k] = v
+				}
+				cp := map[string]string{}
+				for k, v := range cur {
+					cp[k] = v
+				}
+				prefixes = append(prefixes, cp)
+			}
+			seen := map[string]bool{}
+			for k, s := range st.cr.snaps {
+				sig := imgSig(crashImage{Files: s.Files}, s) + fmt.Sprint(st.snapAck[k])
+				if seen[sig] {
+					continue
+				}
+				seen[sig] = true
+				dir := st.cr.materialize(x.j, s.Files)
+				o := st.cr.opts
+				o.Dir, o.ValueDir = dir, dir
+				db, err := Open(o)
+				if err != nil {
+					return "", fmt.Sprintf("snapshot %d: Open: %v", k, err), "open-failed/concurrent"
+				}
+				got, _, err := visibleState(db)
+				_ = db.Close()
+				_ = os.RemoveAll(dir)
+				if err != nil {
+					return "", fmt.Sprintf("snapshot %d: %v", k, err), "read-failed"
+				}
+				match := -1
+				for n, p := range prefixes {
+					if mapString(p) == mapString(got) {
+						match = n
+					}
+				}
+				if match < 0 {
+					return "", fmt.Sprintf("snapshot %d of schedule: recovered {%s} is not a prefix of the commit order %v (ts %v)", k, mapString(got), order, ts), "not-a-commit-prefix/concurrent"
+				}
+				for i, a := range st.snapAck[k] {
+					if !a {
+						continue
+					}
+					pos := 0
+					for p, oi := range order {
+						if oi == i {
+							pos = p + 1
+						}
+					}
+					if match < pos {
+						return "", fmt.Sprintf("snapshot %d: %s was acknowledged but the recovered state {%s} does not contain it", k, st.names[i], mapString(got)), "acked-lost/concurrent"
+					}
+				}
+				x.s.Log("img")
+			}
+			return fmt.Sprint(order), "", ""
+		},
+	})
 }
